@@ -41,6 +41,7 @@ type Safe struct {
 	wrapAtoms map[string]atomID
 	wrapSrc   map[atomID]*Lin
 	divMemo   map[string][2]atomID
+	initialising bool // zero-initialisation of a fresh allocation in progress (not a program write)
 	fullyInit map[*AObj]bool // objects every element of which has been stored (composite literals)
 	LenRule   bool // evaluate the length-covers rule at returns of serialisers
 	Quiet     bool // do not record panic obligations (serialiser runs)
@@ -287,6 +288,9 @@ func (sa *Safe) storePath(st *State, o *AObj, path string, v AVal) {
 	if o == nil {
 		return
 	}
+	if !sa.initialising {
+		st.written[o] = true
+	}
 	if st.mem[o] == nil {
 		st.mem[o] = map[string]AVal{}
 	}
@@ -335,6 +339,9 @@ func (sa *Safe) havoc(st *State, o *AObj, path string) {
 	if o == nil {
 		return
 	}
+	if !sa.initialising {
+		st.written[o] = true
+	}
 	m := st.mem[o]
 	for p := range m {
 		if p == path || (strings.HasPrefix(p, path) && (strings.HasPrefix(p[len(path):], ".") || strings.HasPrefix(p[len(path):], "["))) {
@@ -351,6 +358,7 @@ func (sa *Safe) havocElems(st *State, v AVal) {
 	if v.Obj == nil {
 		return
 	}
+	st.written[v.Obj] = true
 	m := st.mem[v.Obj]
 	for p := range m {
 		if strings.HasPrefix(p, v.Path+"[") {
